@@ -93,14 +93,19 @@ def describe(oc, arrays, cfg):
     widths = [np.asarray(grid.cell_widths(a), dtype=np.float64) for a in range(3)] if nonuni else [np.ones(n) for n in sh]
     ref = float(c0 * cfg.time_step_duration / cfg.courant_number) if nonuni else 1.0
     phases = {}
+    phase_err = 0.0
     for b in oc.boundary_objects:
-        if hasattr(b, "get_bloch_phase") and b.needs_complex_fields:
+        # gated on the Bloch vector the USER declared, not on the implementation's own needs_complex_fields verdict
+        if hasattr(b, "get_bloch_phase") and float(b.bloch_vector[b.axis]) != 0.0:
             sp = float(grid.min_spacing) if nonuni else cfg.uniform_spacing()
             ph = complex(b.get_bloch_phase(oc.volume.grid_shape, sp))
             phases[f"{b.axis}{b.direction}"] = [ph.real.hex(), ph.imag.hex()]
+            # bit pattern is the implementation's (exact replay); the value is checked against exp(i k L) computed here
+            L = float(np.sum(widths[b.axis])) if nonuni else sh[b.axis] * float(cfg.uniform_spacing())
+            phase_err = max(phase_err, abs(ph - np.exp(1j * float(b.bloch_vector[b.axis]) * L)))
     zero = np.zeros((3,) + tuple(sh))
     return {"cn": float(cfg.courant_number).hex(), "eta0": float(eta0).hex(), "ref": float(ref).hex(), "nonuniform": nonuni,
-            "widths": [fl(w) for w in widths], "phases": phases,
+            "widths": [fl(w) for w in widths], "phases": phases, "phase_err": float(phase_err),
             "ieps": fl(bc3(arrays.inv_permittivities, sh)), "imu": fl(bc3(arrays.inv_permeabilities, sh)),
             "sigE": fl(bc3(arrays.electric_conductivity, sh)) if arrays.electric_conductivity is not None else None,
             "sigH": fl(bc3(arrays.magnetic_conductivity, sh)) if arrays.magnetic_conductivity is not None else None,
@@ -138,7 +143,7 @@ def run_tiled(c):
     oc2, arrays2, cfg2 = build_hand(big_c)
     phases = [1.0, 1.0, 1.0]
     for b in oc.boundary_objects:
-        if hasattr(b, "get_bloch_phase") and b.needs_complex_fields and b.direction == "+":
+        if hasattr(b, "get_bloch_phase") and float(b.bloch_vector[b.axis]) != 0.0 and b.direction == "+":
             sp = float(cfg.resolved_grid.min_spacing) if cfg.has_nonuniform_grid else cfg.uniform_spacing()
             phases[b.axis] = complex(b.get_bloch_phase(oc.volume.grid_shape, sp))
     E = tile_fields(arrays.fields.E, reps, phases); H = tile_fields(arrays.fields.H, reps, phases)
